@@ -733,4 +733,105 @@ theorem diff_locality_nd (f1 f2 g1 g2 : Fld) (ax order : Nat)
     exact hx _ (by omega) (by omega)
   · rfl
 
+/-- **Linearity of a whole line as `Field.diff` differentiates it** (open or periodic, restricted
+or not, every mask): the derivative of `α·x + β·y` is `α·(derivative of x) + β·(derivative of y)`
+entry by entry, for two lines with the same validity pattern. -/
+theorem line_linear (p r : Bool) (o : Nat) (h α β : Rat) (cells : List ((Rat × Rat) × Bool)) (k : Nat) :
+    (diffLine' p r o h (cells.map fun c => (α * c.1.1 + β * c.1.2, c.2))).getD k 0
+      = α * (diffLine' p r o h (cells.map fun c => (c.1.1, c.2))).getD k 0
+        + β * (diffLine' p r o h (cells.map fun c => (c.1.2, c.2))).getD k 0 := by
+  have hline : ∀ cs : List ((Rat × Rat) × Bool),
+      diffLine o h (cs.map fun c => (α * c.1.1 + β * c.1.2, c.2))
+        = List.zipWith (fun x y => α * x + β * y) (diffLine o h (cs.map fun c => (c.1.1, c.2)))
+            (diffLine o h (cs.map fun c => (c.1.2, c.2))) := by
+    intro cs
+    have := sdc_linear o h α β cs [] [] rfl
+    simpa [diffLine, sdc] using this
+  have hring : ∀ cs : List ((Rat × Rat) × Bool),
+      diffRing o h (cs.map fun c => (α * c.1.1 + β * c.1.2, c.2))
+        = List.zipWith (fun x y => α * x + β * y) (diffRing o h (cs.map fun c => (c.1.1, c.2)))
+            (diffRing o h (cs.map fun c => (c.1.2, c.2))) := by
+    intro cs
+    unfold diffRing
+    rw [wrap1_map, wrap1_map, wrap1_map, hline]
+    simp only [List.length_map, List.drop_zipWith, List.take_zipWith]
+  have hall : diffLine' p r o h (cells.map fun c => (α * c.1.1 + β * c.1.2, c.2))
+      = List.zipWith (fun x y => α * x + β * y) (diffLine' p r o h (cells.map fun c => (c.1.1, c.2)))
+          (diffLine' p r o h (cells.map fun c => (c.1.2, c.2))) := by
+    unfold diffLine'
+    have e : ∀ g : (Rat × Rat) → Rat,
+        ((cells.map fun c => (g c.1, c.2)).map fun c => (c.1, true))
+          = (cells.map fun c => (c.1, true)).map fun c => (g c.1, c.2) := by
+      intro g; simp [List.map_map, Function.comp_def]
+    cases r
+    · simp only [Bool.false_eq_true, if_false]
+      rw [e (fun c => α * c.1 + β * c.2), e (fun c => c.1), e (fun c => c.2)]
+      cases p
+      · simpa using hline (cells.map fun c => (c.1, true))
+      · simpa using hring (cells.map fun c => (c.1, true))
+    · cases p
+      · simpa using hline cells
+      · simpa using hring cells
+  rw [hall]
+  have hl : (diffLine' p r o h (cells.map fun c => (c.1.1, c.2))).length
+      = (diffLine' p r o h (cells.map fun c => (c.1.2, c.2))).length := by
+    rw [diffLine'_length, diffLine'_length]; simp
+  simp only [List.getD_eq_getElem?_getD, List.getElem?_zipWith]
+  by_cases hk : k < (diffLine' p r o h (cells.map fun c => (c.1.1, c.2))).length
+  · have hk2 : k < (diffLine' p r o h (cells.map fun c => (c.1.2, c.2))).length := by omega
+    simp [hk, hk2]
+  · have hk2 : ¬ k < (diffLine' p r o h (cells.map fun c => (c.1.2, c.2))).length := by omega
+    simp [Nat.le_of_not_lt hk, Nat.le_of_not_lt hk2]
+
+/-- **`Field.diff` is linear in the field values**, at n-d field level: for three fields on the
+same mesh with the same validity, if every component of `f3` is `α·f1 + β·f2` cell by cell, then
+every component of `diff f3` is `α·diff f1 + β·diff f2` cell by cell — every axis, open or
+periodic, both orders, restricted to valid cells or not, every mask. -/
+theorem diff_linear (f1 f2 f3 g1 g2 g3 : Fld) (ax order : Nat) (r : Bool) (α β : Rat)
+    (h1 : diff f1 ax order r = .ok g1) (h2 : diff f2 ax order r = .ok g2) (h3 : diff f3 ax order r = .ok g3)
+    (hm2 : f2.mesh = f1.mesh) (hm3 : f3.mesh = f1.mesh)
+    (hv2 : ∀ j, f2.valid.get j = f1.valid.get j) (hv3 : ∀ j, f3.valid.get j = f1.valid.get j)
+    (i : List Nat) (c : Nat) (hc1 : c < f1.nvdim) (hc2 : c < f2.nvdim) (hc3 : c < f3.nvdim)
+    (hd : ∀ j, (f3.data.get j).getD c 0 = α * (f1.data.get j).getD c 0 + β * (f2.data.get j).getD c 0) :
+    (g3.data.get i).getD c 0 = α * (g1.data.get i).getD c 0 + β * (g2.data.get i).getD c 0 := by
+  rw [diff_cell f1 g1 ax order r h1 i c hc1, diff_cell f2 g2 ax order r h2 i c hc2, diff_cell f3 g3 ax order r h3 i c hc3,
+    hm2, hm3]
+  let cells : List ((Rat × Rat) × Bool) := tab (f1.mesh.nAt ax) fun j =>
+    (((f1.data.line ax i j).getD c 0, (f2.data.line ax i j).getD c 0), f1.valid.line ax i j)
+  have e1 : lineCells f1 ax i c = cells.map fun c => (c.1.1, c.2) := by
+    simp only [lineCells, cells, tab, List.map_map, Function.comp_def]
+  have e2 : lineCells f2 ax i c = cells.map fun c => (c.1.2, c.2) := by
+    simp only [lineCells, cells, tab, List.map_map, Function.comp_def, hm2]
+    apply List.map_congr_left
+    intro j _
+    simp only [NDA.line, hv2]
+  have e3 : lineCells f3 ax i c = cells.map fun c => (α * c.1.1 + β * c.1.2, c.2) := by
+    simp only [lineCells, cells, tab, List.map_map, Function.comp_def, hm3]
+    apply List.map_congr_left
+    intro j _
+    simp only [NDA.line, hv3, hd]
+  rw [e1, e2, e3]
+  exact line_linear _ r order _ α β cells _
+
+/-! ## Non-vacuity: concrete instances of the hypotheses -/
+
+/-- a 2-d field (5×2 cells, two components, one invalid cell, all directions open) whose derivative
+along both axes exists; axis 0 is not periodic; the cell (3,1) is invalid -/
+example : (∃ g, diff exF 0 1 true = .ok g) ∧ (∃ g, diff exF 1 2 true = .ok g) ∧ periodicAx exF 0 = false ∧
+    exF.valid.get [3, 1] = false ∧ [3, 1].getD 0 0 < exF.mesh.nAt 0 ∧ 1 < exF.nvdim :=
+  ⟨⟨_, rfl⟩, ⟨_, rfl⟩, by decide, by decide, by decide, by decide⟩
+
+/-- the hypothesis of `ring_head_run_seam` is met by the ring of finding D17 -/
+example : (([(7 : Rat), 1, 4].map (·, true)) ++ (9, false) :: [((2 : Rat), true)]).getLast? = some (2, true) := by
+  simp
+
+/-- … and that of `ring_tail_run_seam` by the same ring -/
+example : (([((7 : Rat), true), (1, true), (4, true)]) ++ (9, false) :: [(2 : Rat)].map (·, true)).head? = some (7, true) := by
+  simp
+
+/-- the run-length hypothesis of `short_run_zero_at` / `diff_short_run_zero`: in the mask
+`[1,0,1,1,0]` cell 2 has no valid cell before it and a run of two from it on -/
+example : runBefore (okOf [((1 : Rat), true), (2, false), (3, true), (4, true), (5, false)]) 2 = 0 ∧
+    runFrom (okOf [((1 : Rat), true), (2, false), (3, true), (4, true), (5, false)]) 5 2 = 2 := by decide
+
 end DFV.C04
